@@ -164,6 +164,120 @@ def optDepth (fwd : DepthFwd) (d : Int) : Int :=
 def optOptions (fwd : DepthFwd) (d : Int) (opts : List Int) : List Int :=
   opts.set Gen.initDepthIndex (optDepth fwd d)
 
+/-! ### `sys._getframe` converts its argument to a C `int`
+
+`sys._getframe(n)` parses `n` with the `i` format: an index outside `[-2³¹, 2³¹-1]` raises OverflowError (rendered
+`.other`) before any frame is looked at.  `getFrame` above is the function on mathematical integers the index theorems
+speak about; the `…C` variants mirror what the interpreter does for EVERY integer, and `logCoreC_eq_logCore` says they
+coincide whenever `Gen.frameIndex depth` is a C int (always the case for a depth inside any real stack). -/
+
+def cIntMax : Int := 2147483647
+def cIntMin : Int := -2147483648
+
+def getFrameC (stack : List Frame) (n : Int) : Except Err Frame :=
+  if n < cIntMin ∨ cIntMax < n then .error .other else getFrame stack n
+
+/-- `try: frame = get_frame(depth + K) except <handler types>: …` with the real `sys._getframe` -/
+def selectLocalsC (stack : List Frame) (depth : Int) : Except Err Locals :=
+  match getFrameC stack (Gen.frameIndex depth) with
+  | .ok f => .ok (localsOfFrame f)
+  | .error .valueError =>
+    if Gen.beyondStackHandled then .ok placeholderLocals else .error .valueError
+  | .error .other =>
+    if Gen.overflowHandled then .ok placeholderLocals else .error .other
+  | .error e => .error e
+
+def logCoreC (stack : List Frame) (options : List Int) (ex : Exec) : Except Err Record :=
+  match unpackDepth options with
+  | .error e => .error e
+  | .ok depth =>
+    match selectLocalsC stack depth with
+    | .error e => .error e
+    | .ok l =>
+      match lookupName l.f_globals_name with
+      | .error e => .error e
+      | .ok name => .ok (mkRecord l name ex)
+
+def logViaMethodC (lib : Str → Frame) (m : MethodRow) (opts : List Int) (us : List Frame) (ex : Exec) :
+    Except Err Record :=
+  logCoreC (stackAtLog lib m.chain us) (m.opts.eval 1 opts) ex
+
+def logViaCatchC (lib : Str → Frame) (w : CatchRow) (opts : List Int) (us : List Frame) (ex : Exec) :
+    Except Err Record :=
+  match catchOptions w.fromDecorator w.frames opts with
+  | .error e => .error e
+  | .ok o => logCoreC (stackAtLog lib w.chain us) o ex
+
+/-! ### derived loggers: `Logger.__init__`, `bind`, `patch`, `opt` and the root logger of `loguru/__init__.py`
+
+Every derivation ends in `Logger(<self>._core, a₁, …, a₉)`; the GENERATED tables `Gen.bindArgs`, `Gen.patchArgs`,
+`Gen.optArgs`, `Gen.rootArgs` say where each `aₖ` comes from (an old slot, the `depth` parameter, a new value) and
+`Gen.ctorSlots` says which constructor parameter `__init__` stores in which slot of `_options`. -/
+
+/-- `map` in the `Except` monad, written out (so that it reduces on concrete tables) -/
+def mapE {α β : Type} (f : α → Except Err β) : List α → Except Err (List β)
+  | [] => .ok []
+  | a :: as =>
+    match f a with
+    | .error e => .error e
+    | .ok b =>
+      match mapE f as with
+      | .error e => .error e
+      | .ok bs => .ok (b :: bs)
+
+/-- the value of one constructor argument: `opts` = `_options` of the deriving logger, `d` = the method's `depth`
+parameter, `fresh` = any new value (uninterpreted: only the depth slot is ever read) -/
+def evalSrc (opts : List Int) (d fresh : Int) : Src → Except Err Int
+  | .old i => match opts[i]? with
+    | some v => .ok v
+    | none => .error .indexError
+  | .depthParam => .ok d
+  | .fresh => .ok fresh
+
+/-- `Logger.__init__(core, *args)`: TypeError on a wrong number of arguments; slot `k` of `_options` receives the
+parameter `Gen.ctorSlots[k]` -/
+def construct (args : List Int) : Except Err (List Int) :=
+  if args.length ≠ Gen.ctorSlots.length then .error .typeError else
+  mapE (fun p => match args[p]? with
+    | some v => .ok v
+    | none => .error .typeError) Gen.ctorSlots
+
+/-- one derivation: evaluate the constructor arguments, then construct -/
+def deriveWith (srcs : List Src) (d fresh : Int) (opts : List Int) : Except Err (List Int) :=
+  match mapE (evalSrc opts d fresh) srcs with
+  | .error e => .error e
+  | .ok args => construct args
+
+/-- a step of a derivation history: `bind(...)`, `patch(...)`, or `opt(depth=d, …)` leaving through a return path
+that hands depth on as `fwd` (`Gen.optPaths`) -/
+inductive Deriv where
+  | bind | patch
+  | opt (d : Int) (fwd : DepthFwd)
+  deriving DecidableEq, Repr
+
+def applyDeriv (fresh : Int) (opts : List Int) : Deriv → Except Err (List Int)
+  | .bind => deriveWith Gen.bindArgs 0 fresh opts
+  | .patch => deriveWith Gen.patchArgs 0 fresh opts
+  | .opt d fwd => deriveWith Gen.optArgs (optDepth fwd d) fresh opts
+
+/-- `logger.<d₁>(…).<d₂>(…)…` starting from a logger whose options are `opts` -/
+def runDerivs (fresh : Int) : List Deriv → List Int → Except Err (List Int)
+  | [], opts => .ok opts
+  | x :: xs, opts =>
+    match applyDeriv fresh opts x with
+    | .error e => .error e
+    | .ok o => runDerivs fresh xs o
+
+/-- `_options` of `loguru.logger` as `loguru/__init__.py` constructs it -/
+def rootOptions (fresh : Int) : Except Err (List Int) :=
+  deriveWith Gen.rootArgs Gen.rootDepth fresh []
+
+/-- `loguru.logger.<d₁>(…)…<dₙ>(…)` -/
+def derivedFromRoot (fresh : Int) (ds : List Deriv) : Except Err (List Int) :=
+  match rootOptions fresh with
+  | .error e => .error e
+  | .ok o => runDerivs fresh ds o
+
 /-! ### a history of calls: when the calling thread / process are looked up -/
 
 /-- the context a lookup policy yields: the call's own, the one of the thread's first logging call
